@@ -1,11 +1,22 @@
-From FH Require Import Model.Base Gen.GenC31 Spec.Calendar Spec.HttpDate Spec.IPv4Spec Model.DateIP.
+From FH Require Import Model.Base Gen.GenC31 Spec.Calendar Spec.HttpDate Spec.IPv4Spec Model.DateIP Model.IPv6 Spec.IPv6Text.
 Open Scope Z_scope.
 
 Inductive c31case :=
 | CDateFast (b : bytes) (fast : option Z) (stdlib : option Z)     (* parseRFC1123DateGMT(b) and time.Parse(http.TimeFormat,b), as Unix seconds *)
 | CDateRound (secs : Z) (appended : bytes) (parsed : option Z)    (* AppendHTTPDate(time.Unix(secs)), ParseHTTPDate of it *)
 | CIPv4 (s : bytes) (impl : option (list Z))                      (* ParseIPv4 *)
-| CIPv4Round (ip : list Z) (appended : bytes) (parsed : option (list Z)).
+| CIPv4Round (ip : list Z) (appended : bytes) (parsed : option (list Z))
+(* validateIPv6Literal(host) == nil, and netip.ParseAddr(a) ok && Is6() for the address part a = host[1:LastIndexByte(host, ']')]
+   (false when host does not start with '[' or has no ']') *)
+| CIPv6 (host : bytes) (impl_ok : bool) (netip_ok : bool).
+
+(* "[" a "]" rest  ->  (a, rest), the closing bracket being the last ']' *)
+Definition bracket_parts (host : bytes) : option (bytes * bytes) :=
+  match host with
+  | c :: t => if (c =? LBR)%N then cut_last RBR t else None
+  | [] => None
+  end.
+Definition starts_bracket (host : bytes) : bool := match host with c :: _ => (c =? LBR)%N | [] => false end.
 
 Definition ozeq := option_eqb Z.eqb.
 Definition olzeq := option_eqb (list_eqb Z.eqb).
@@ -16,6 +27,7 @@ Definition corr_ok (c : c31case) : bool :=
   | CDateRound secs app parsed => beq (spec_format_http_date secs) app && ozeq (parseRFC1123DateGMT app) parsed
   | CIPv4 s impl => olzeq (ParseIPv4 s) impl
   | CIPv4Round ip app parsed => beq (AppendIPv4 ip) app && olzeq (ParseIPv4 app) parsed
+  | CIPv6 host impl_ok _ => Bool.eqb (v6_ok (validateIPv6Literal host)) impl_ok
   end.
 
 Definition prop_ok (c : c31case) : bool :=
@@ -28,4 +40,12 @@ Definition prop_ok (c : c31case) : bool :=
   | CDateRound secs app parsed => ozeq parsed (Some secs)
   | CIPv4 s impl => olzeq (spec_parse_ipv4 s) impl
   | CIPv4Round ip app parsed => olzeq parsed (Some ip)
+  | CIPv6 host impl_ok netip_ok =>
+      match bracket_parts host with
+      | None => negb (starts_bracket host && impl_ok)          (* "[..." without ']' has no address part: must not be accepted *)
+      | Some (a, rest) =>
+          Bool.eqb (spec_ipv6 a) netip_ok                      (* validation of Spec/IPv6Text.v against the real net/netip *)
+          && (negb impl_ok || netip_ok)                        (* accepted only if the address part is an IPv6 address per net/netip *)
+          && (negb (zoneless a && netip_ok && is_port rest) || impl_ok)   (* every zone-less IPv6 address (with optional port) is accepted *)
+      end
   end.
